@@ -10,7 +10,7 @@ From TLV Require Import Base.Shape Base.PyList Base.Tensor Base.Ops Model.Base M
      Proofs.SvdDecompTuckerErr Proofs.SvdDecompTuckerBound Proofs.SvdDecompHosvdBound
      Proofs.SvdDecompPartial Proofs.SvdDecompTuckerGen Proofs.SvdDecompRingErr Proofs.SvdDecompTTMErr
      Proofs.SvdDecompValidate Proofs.SvdDecompRingPartial Proofs.SvdDecompRingErrR
-     Proofs.SvdDecompRankCond.
+     Proofs.SvdDecompRankCond Model.SvdDecompSymeig Proofs.SvdDecompSymeig Proofs.SvdDecompSymeigRing.
 Import ListNotations.
 
 (* exactness of one TT-SVD step, over every commutative ring: truncating + sign-flipping a
@@ -658,3 +658,127 @@ Theorem C09_hosvd_exact_from_rank_condition_partial : eckart_young_stmt ->
   tucker_to_tensor Rops core fs = Ok X.
 Proof. exact hosvd_exact_from_rank_condition_partial. Qed.
 Print Assumptions C09_hosvd_exact_from_rank_condition_partial.
+
+(* ============================================================ svd = "symeig_svd" (Model/SvdDecompSymeig.v) ============ *)
+(* the chain induction for the WEAKEST per-call contract: "the truncated, sign-flipped answer multiplies back to the query".
+   Every commutative ring, every order, every rank request; covers SVD methods whose discarded singular values are not zero *)
+Theorem C09_chain_loop_exact_gen : forall (F : Type) (Op : fops F),
+  ring_theory (f0 Op) (f1 Op) (fadd Op) (fmul Op) (fsub Op) (fopp Op) (@eq F) ->
+  forall (svd : nat -> tensor F -> svdans) (sizes : list nat) (k : nat) (ranks : list nat) (rk r0 : nat)
+         (W : list F) (cores : list (tensor F)),
+  loop_pred Op svd (fun M m n r a => fact_exact Op M m n r (svd_interface Op a r)) k sizes ranks rk r0 W ->
+  chain_loop Op svd k sizes ranks rk r0 W = Ok cores ->
+  forall a idx c, a < rk -> inb sizes idx -> c < r0 ->
+    chain Op cores a idx c = nth ((a * prod sizes + ravel sizes idx) * r0 + c) W (f0 Op).
+Proof. exact @chain_loop_exact_gen. Qed.
+Print Assumptions C09_chain_loop_exact_gen.
+
+Theorem C09_tensor_train_exact_gen : forall (F : Type) (Op : fops F),
+  ring_theory (f0 Op) (f1 Op) (fadd Op) (fmul Op) (fsub Op) (fopp Op) (@eq F) ->
+  forall (svd : nat -> tensor F -> svdans) (X : tensor F) (rank : rank_spec) (cores : list (tensor F)),
+  tt_exact_calls Op svd X rank -> tensor_train Op svd X rank = Ok cores ->
+  forall idx, inb (shape X) idx -> tt_entry Op cores idx = get (f0 Op) X idx.
+Proof. exact @tensor_train_exact_gen. Qed.
+Print Assumptions C09_tensor_train_exact_gen.
+
+(* over R, svd_interface (truncation + u-based sign flip) keeps the truncated product WITHOUT any hypothesis on the columns
+   of U: a kept column that is zero gets sign 0, and its term was zero anyway *)
+Theorem C09_svd_interface_exact_terms_R : forall (M : tensor R) (m n r : nat) (a : svdans),
+  terms_contract M m n r a -> fact_exact Rops M m n r (svd_interface Rops a r).
+Proof. exact svd_interface_exact_terms. Qed.
+Print Assumptions C09_svd_interface_exact_terms_R.
+
+(* one symeig_svd call, branch dim_1 <= dim_2 (S, V = eigh(M^T M); U = (M V) / S): exact as soon as W W^T = I, the clipped
+   square roots are non-zero and the discarded eigenvectors are null vectors of M; nothing is assumed on the KEPT ones *)
+Theorem C09_symeig_step_exact_wide_R : forall (M W : tensor R) (s : list R) (m n r : nat),
+  shape M = [m; n] -> shape W = [n; n] -> length s = n -> m <= n -> r <= m ->
+  (forall l, l < n -> nth l s 0%R <> 0%R) ->
+  (forall j c, j < n -> c < n -> fsumn Rops n (fun l => (g Rops W [j; l] * g Rops W [c; l])%R) = delta j c) ->
+  (forall l i, l < n - r -> i < m -> fsumn Rops n (fun j => (g Rops M [i; j] * g Rops W [j; l])%R) = 0%R) ->
+  fact_exact Rops M m n r (svd_interface Rops (symeig_ans Rops M W s) r).
+Proof. exact symeig_step_exact_wide. Qed.
+Print Assumptions C09_symeig_step_exact_wide_R.
+
+(* branch dim_1 > dim_2 (S, U = eigh(M M^T); V = M^T (U / S)) *)
+Theorem C09_symeig_step_exact_tall_R : forall (M W : tensor R) (s : list R) (m n r : nat),
+  shape M = [m; n] -> shape W = [m; m] -> length s = m -> n < m -> r <= n ->
+  (forall l, l < m -> nth l s 0%R <> 0%R) ->
+  (forall i i', i < m -> i' < m -> fsumn Rops m (fun l => (g Rops W [i; l] * g Rops W [i'; l])%R) = delta i i') ->
+  (forall l c, l < m - r -> c < n -> fsumn Rops m (fun i' => (g Rops M [i'; c] * g Rops W [i'; l])%R) = 0%R) ->
+  fact_exact Rops M m n r (svd_interface Rops (symeig_ans Rops M W s) r).
+Proof. exact symeig_step_exact_tall. Qed.
+Print Assumptions C09_symeig_step_exact_tall_R.
+
+(* the clip at eps > 0 is what makes the divisions of symeig_svd harmless *)
+Theorem C09_symeig_clip_sqrt_nonzero : forall eps lam : R, (0 < eps)%R -> sqrt (clip_min Rops eps lam) <> 0%R.
+Proof. exact clip_sqrt_nonzero. Qed.
+Print Assumptions C09_symeig_clip_sqrt_nonzero.
+
+(* both branches under the eigh-level contract symeig_call_ok (s = sqrt(clip(lambda, eps)), W orthogonal, discarded
+   eigenvectors in the null space of the query) *)
+Theorem C09_symeig_call_exact_R : forall (eps : R) (M : tensor R) (m n r : nat) (a : svdans),
+  (0 < eps)%R -> symeig_call_ok eps M m n r a -> fact_exact Rops M m n r (svd_interface Rops a r).
+Proof. exact symeig_call_ok_step_exact. Qed.
+Print Assumptions C09_symeig_call_exact_R.
+
+(* TT-SVD (hence TT-matrix) with svd="symeig_svd", every order and rank request: exact reconstruction when every call of the
+   run meets the eigh-level contract *)
+Theorem C09_tensor_train_symeig_exact_R : forall (svd : nat -> tensor R -> svdans) (eps : R), (0 < eps)%R ->
+  forall (X : tensor R) (rank : rank_spec) (cores : list (tensor R)),
+  tt_symeig_contract svd eps X rank -> tensor_train Rops svd X rank = Ok cores ->
+  forall idx, inb (shape X) idx -> tt_entry Rops cores idx = get 0%R X idx.
+Proof. exact tensor_train_symeig_exact_R. Qed.
+Print Assumptions C09_tensor_train_symeig_exact_R.
+
+(* slicing by the dimensions and then by n_eigenvecs (what the generic model does with the oracle's answer) is the return
+   expression of symeig_svd: U[:, :min(dim_1, n)], S[:min(dim_1, dim_2, n)], V[:min(dim_2, n), :] *)
+Theorem C09_symeig_truncation_eq : forall (F : Type) (Op : fops F) (M W : tensor F) (s : list F) (ne : nat),
+  truncated_svd Op (symeig_ans Op M W s) ne = symeig_svd Op M W s ne.
+Proof. exact @symeig_truncation_eq. Qed.
+Print Assumptions C09_symeig_truncation_eq.
+
+(* non-vacuity: the rank-1 query [[3,4],[6,8]] with its exact eigenvectors, truncated at the true rank (r = 1: a null vector
+   is discarded) and with an OVER-REQUESTED rank (r = 2: the null vector is kept and divided by sqrt(eps)) *)
+Example C09_nonvacuous_symeig_contract : forall (eps : R) (r : nat), (0 < eps)%R -> r = 1 \/ r = 2 ->
+  symeig_call_ok eps exM 2 2 r (symeig_ans Rops exM exW (map (fun x => sqrt (clip_min Rops eps x)) exLam)).
+Proof. exact symeig_contract_satisfiable. Qed.
+
+Example C09_nonvacuous_symeig_over_requested : forall eps : R, (0 < eps)%R ->
+  fact_exact Rops exM 2 2 2
+    (svd_interface Rops (symeig_ans Rops exM exW (map (fun x => sqrt (clip_min Rops eps x)) exLam)) 2).
+Proof. exact symeig_over_requested_exact. Qed.
+
+(* tensor_ring, EVERY start mode, and tensor_train_matrix under the weakest per-call contract (any commutative ring) *)
+Theorem C09_tensor_ring_exact_gen : forall (F : Type) (Op : fops F),
+  ring_theory (f0 Op) (f1 Op) (fadd Op) (fmul Op) (fsub Op) (fopp Op) (@eq F) ->
+  forall (svd : nat -> tensor F -> svdans) (X : tensor F) (rank : rank_spec) (mode : nat) (cores : list (tensor F)),
+  tr_pred Op svd (step_exact Op) X rank mode -> tensor_ring Op svd X rank mode = Ok cores ->
+  forall idx, inb (shape X) idx -> tr_entry Op cores idx = get (f0 Op) X idx.
+Proof. exact @tensor_ring_exact_gen. Qed.
+Print Assumptions C09_tensor_ring_exact_gen.
+
+Theorem C09_tensor_train_matrix_exact_gen : forall (F : Type) (Op : fops F),
+  ring_theory (f0 Op) (f1 Op) (fadd Op) (fmul Op) (fsub Op) (fopp Op) (@eq F) ->
+  forall (svd : nat -> tensor F -> svdans) (X : tensor F) (rank : rank_spec) (cores : list (tensor F)),
+  ttm_exact_calls Op svd X rank -> tensor_train_matrix Op svd X rank = Ok cores ->
+  forall is_ js, inb (firstn (ndim X / 2) (shape X)) is_ -> inb (skipn (ndim X / 2) (shape X)) js ->
+  ttm_entry Op cores is_ js = get (f0 Op) X (is_ ++ js).
+Proof. exact @tensor_train_matrix_exact_gen. Qed.
+Print Assumptions C09_tensor_train_matrix_exact_gen.
+
+(* svd="symeig_svd": tensor_ring (every start mode) and tensor_train_matrix are exact when every eigh call of the run meets
+   the eigh-level contract symeig_call_ok *)
+Theorem C09_tensor_ring_symeig_exact_R : forall (svd : nat -> tensor R -> svdans) (eps : R), (0 < eps)%R ->
+  forall (X : tensor R) (rank : rank_spec) (mode : nat) (cores : list (tensor R)),
+  tr_pred Rops svd (symeig_call_ok eps) X rank mode -> tensor_ring Rops svd X rank mode = Ok cores ->
+  forall idx, inb (shape X) idx -> tr_entry Rops cores idx = get 0%R X idx.
+Proof. exact tensor_ring_symeig_exact_R. Qed.
+Print Assumptions C09_tensor_ring_symeig_exact_R.
+
+Theorem C09_tensor_train_matrix_symeig_exact_R : forall (svd : nat -> tensor R -> svdans) (eps : R), (0 < eps)%R ->
+  forall (X : tensor R) (rank : rank_spec) (cores : list (tensor R)),
+  ttm_symeig_contract svd eps X rank -> tensor_train_matrix Rops svd X rank = Ok cores ->
+  forall is_ js, inb (firstn (ndim X / 2) (shape X)) is_ -> inb (skipn (ndim X / 2) (shape X)) js ->
+  ttm_entry Rops cores is_ js = get 0%R X (is_ ++ js).
+Proof. exact tensor_train_matrix_symeig_exact_R. Qed.
+Print Assumptions C09_tensor_train_matrix_symeig_exact_R.
